@@ -1,0 +1,49 @@
+//go:build verif
+
+package kafka
+
+// Add-only export file for the verification harness in /verif (property C15, the coordinator
+// connection layer: makeConnect / timeoutCoordinator).  Nothing here is compiled into normal builds.
+
+// VerifRealCoordinator is the coordinator that makeConnect builds (the real
+// timeoutCoordinator over a *Conn dialled through config.Dialer).
+type VerifRealCoordinator struct{ c coordinator }
+
+// VerifConnectCoordinator calls makeConnect(config)(config.Dialer, brokers...).
+func VerifConnectCoordinator(config ConsumerGroupConfig, brokers ...string) (*VerifRealCoordinator, error) {
+	c, err := makeConnect(config)(config.Dialer, brokers...)
+	if err != nil {
+		return nil, err
+	}
+	return &VerifRealCoordinator{c}, nil
+}
+
+// Close closes the connection.
+func (v *VerifRealCoordinator) Close() error { return v.c.Close() }
+
+// Call issues one coordinator call by name with a minimal request and returns its error.
+func (v *VerifRealCoordinator) Call(api string) error {
+	var err error
+	switch api {
+	case "findCoordinator":
+		_, err = v.c.findCoordinator(findCoordinatorRequestV0{CoordinatorKey: "grp"})
+	case "joinGroup":
+		_, err = v.c.joinGroup(joinGroupRequest{GroupID: "grp", SessionTimeout: 1000, RebalanceTimeout: 1000, ProtocolType: defaultProtocolType})
+	case "syncGroup":
+		_, err = v.c.syncGroup(syncGroupRequestV0{GroupID: "grp", GenerationID: 1, MemberID: "member-1"})
+	case "leaveGroup":
+		_, err = v.c.leaveGroup(leaveGroupRequestV0{GroupID: "grp", MemberID: "member-1"})
+	case "heartbeat":
+		_, err = v.c.heartbeat(heartbeatRequestV0{GroupID: "grp", GenerationID: 1, MemberID: "member-1"})
+	case "offsetFetch":
+		_, err = v.c.offsetFetch(offsetFetchRequestV1{GroupID: "grp", Topics: []offsetFetchRequestV1Topic{{Topic: "t0", Partitions: []int32{0}}}})
+	case "offsetCommit":
+		_, err = v.c.offsetCommit(offsetCommitRequestV2{GroupID: "grp", GenerationID: 1, MemberID: "member-1", RetentionTime: -1,
+			Topics: []offsetCommitRequestV2Topic{{Topic: "t0", Partitions: []offsetCommitRequestV2Partition{{Partition: 0, Offset: 1}}}}})
+	case "readPartitions":
+		_, err = v.c.readPartitions("t0")
+	default:
+		panic("VerifRealCoordinator.Call: unknown api " + api)
+	}
+	return err
+}
